@@ -77,3 +77,111 @@ package set
 //@   ensures[C03] removed_before: (=> (and had first (> (Slice.len b0) 1)) (forall ((j Int)) (! (=> (and (trig j) (<= 0 j) (< j x)) (= (select ($at<Arr<Any>> (Slice.ptr b)) (+ (Slice.off b) j)) (select (old ($at<Arr<Any>> (Slice.ptr b0))) (+ (Slice.off b0) j)))) :pattern ((trig j)))))
 //@   ensures[C03] removed_after: (=> (and had first (> (Slice.len b0) 1)) (forall ((j Int)) (! (=> (and (trig j) (<= x j) (< j (- (Slice.len b0) 1))) (= (select ($at<Arr<Any>> (Slice.ptr b)) (+ (Slice.off b) j)) (select (old ($at<Arr<Any>> (Slice.ptr b0))) (+ (Slice.off b0) (+ j 1))))) :pattern ((trig j)))))
 //@   loop 1 invariant (forall ((j Int)) (! (=> (and (trig j) (<= 0 j) (< j $i)) (not (r_equiv R val (select ($at<Arr<Any>> (Slice.ptr bucket)) (+ (Slice.off bucket) j))))) :pattern ((trig j))))
+//
+// The callbacks that the set operations run for every member (C03). Intersection keeps a member of the
+// receiver exactly when the other set has it; Subtract and SymmetricDifference keep it exactly when the
+// other set does not have it. "Keep" is an Add to the result set: afterwards the result has the member;
+// "not keep" leaves the result set as it was. (That EachValue runs the callback once for every member is
+// not under contract.)
+//@ func (set.Set[interface{}]).Subtract[interface{}]$1
+//@   tags C03
+//@   let S2 (old ($at<set.Set<Any>> s2))
+//@   let RS (old ($at<set.Set<Any>> rs))
+//@   let R (set.Set<Any>.rules RS)
+//@   let h (r_hash R v)
+//@   let M2 (old ($at<MapC<Int~Slice>> (set.Set<Any>.vals S2)))
+//@   let MR0 (old ($at<MapC<Int~Slice>> (set.Set<Any>.vals RS)))
+//@   let MR ($at<MapC<Int~Slice>> (set.Set<Any>.vals RS))
+//@   let b2 (select (MapC<Int~Slice>.val M2) h)
+//@   let bR (select (MapC<Int~Slice>.val MR) h)
+//@   let in2 (and (select (MapC<Int~Slice>.dom M2) h) (exists ((j Int)) (! (and (trig j) (<= 0 j) (< j (Slice.len b2)) (r_equiv R v (select (old ($at<Arr<Any>> (Slice.ptr b2))) (+ (Slice.off b2) j)))) :pattern ((trig j)))))
+//@   let inR (and (select (MapC<Int~Slice>.dom MR) h) (exists ((j Int)) (! (and (trig j) (<= 0 j) (< j (Slice.len bR)) (r_equiv R v (select ($at<Arr<Any>> (Slice.ptr bR)) (+ (Slice.off bR) j)))) :pattern ((trig j)))))
+//@   requires (and (not (= R nil.Any)) (= (set.Set<Any>.rules S2) R) (not (= (set.Set<Any>.vals RS) 0)) (MapC<Int~Slice>.ok MR0) (MapC<Int~Slice>.ok M2) (not (= (set.Set<Any>.vals RS) (set.Set<Any>.vals S2))))
+//@   requires (and (set_buckets_ok MR0) (set_buckets_ok M2))
+//@   writes MapC<Int~Slice> (set.Set<Any>.vals RS)
+//@   ensures[C03] dropped: (=> in2 (= MR MR0))
+//@   ensures[C03] kept: (=> (and (not in2) (r_equiv R v v)) inR)
+//
+//@ func (set.Set[interface{}]).Intersection[interface{}]$1
+//@   tags C03
+//@   let S2 (old ($at<set.Set<Any>> s2))
+//@   let RS (old ($at<set.Set<Any>> rs))
+//@   let R (set.Set<Any>.rules RS)
+//@   let h (r_hash R v)
+//@   let M2 (old ($at<MapC<Int~Slice>> (set.Set<Any>.vals S2)))
+//@   let MR0 (old ($at<MapC<Int~Slice>> (set.Set<Any>.vals RS)))
+//@   let MR ($at<MapC<Int~Slice>> (set.Set<Any>.vals RS))
+//@   let b2 (select (MapC<Int~Slice>.val M2) h)
+//@   let bR (select (MapC<Int~Slice>.val MR) h)
+//@   let in2 (and (select (MapC<Int~Slice>.dom M2) h) (exists ((j Int)) (! (and (trig j) (<= 0 j) (< j (Slice.len b2)) (r_equiv R v (select (old ($at<Arr<Any>> (Slice.ptr b2))) (+ (Slice.off b2) j)))) :pattern ((trig j)))))
+//@   let inR (and (select (MapC<Int~Slice>.dom MR) h) (exists ((j Int)) (! (and (trig j) (<= 0 j) (< j (Slice.len bR)) (r_equiv R v (select ($at<Arr<Any>> (Slice.ptr bR)) (+ (Slice.off bR) j)))) :pattern ((trig j)))))
+//@   requires (and (not (= R nil.Any)) (= (set.Set<Any>.rules S2) R) (not (= (set.Set<Any>.vals RS) 0)) (MapC<Int~Slice>.ok MR0) (MapC<Int~Slice>.ok M2) (not (= (set.Set<Any>.vals RS) (set.Set<Any>.vals S2))))
+//@   requires (and (set_buckets_ok MR0) (set_buckets_ok M2))
+//@   writes MapC<Int~Slice> (set.Set<Any>.vals RS)
+//@   ensures[C03] dropped: (=> (not in2) (= MR MR0))
+//@   ensures[C03] kept: (=> (and in2 (r_equiv R v v)) inR)
+//
+//@ func (set.Set[interface{}]).SymmetricDifference[interface{}]$1
+//@   tags C03
+//@   let S2 (old ($at<set.Set<Any>> s2))
+//@   let RS (old ($at<set.Set<Any>> rs))
+//@   let R (set.Set<Any>.rules RS)
+//@   let h (r_hash R v)
+//@   let M2 (old ($at<MapC<Int~Slice>> (set.Set<Any>.vals S2)))
+//@   let MR0 (old ($at<MapC<Int~Slice>> (set.Set<Any>.vals RS)))
+//@   let MR ($at<MapC<Int~Slice>> (set.Set<Any>.vals RS))
+//@   let b2 (select (MapC<Int~Slice>.val M2) h)
+//@   let bR (select (MapC<Int~Slice>.val MR) h)
+//@   let in2 (and (select (MapC<Int~Slice>.dom M2) h) (exists ((j Int)) (! (and (trig j) (<= 0 j) (< j (Slice.len b2)) (r_equiv R v (select (old ($at<Arr<Any>> (Slice.ptr b2))) (+ (Slice.off b2) j)))) :pattern ((trig j)))))
+//@   let inR (and (select (MapC<Int~Slice>.dom MR) h) (exists ((j Int)) (! (and (trig j) (<= 0 j) (< j (Slice.len bR)) (r_equiv R v (select ($at<Arr<Any>> (Slice.ptr bR)) (+ (Slice.off bR) j)))) :pattern ((trig j)))))
+//@   requires (and (not (= R nil.Any)) (= (set.Set<Any>.rules S2) R) (not (= (set.Set<Any>.vals RS) 0)) (MapC<Int~Slice>.ok MR0) (MapC<Int~Slice>.ok M2) (not (= (set.Set<Any>.vals RS) (set.Set<Any>.vals S2))))
+//@   requires (and (set_buckets_ok MR0) (set_buckets_ok M2))
+//@   writes MapC<Int~Slice> (set.Set<Any>.vals RS)
+//@   ensures[C03] dropped: (=> in2 (= MR MR0))
+//@   ensures[C03] kept: (=> (and (not in2) (r_equiv R v v)) inR)
+//
+//@ func (set.Set[interface{}]).SymmetricDifference[interface{}]$2
+//@   tags C03
+//@   let S2 (old ($at<set.Set<Any>> s1))
+//@   let RS (old ($at<set.Set<Any>> rs))
+//@   let R (set.Set<Any>.rules RS)
+//@   let h (r_hash R v)
+//@   let M2 (old ($at<MapC<Int~Slice>> (set.Set<Any>.vals S2)))
+//@   let MR0 (old ($at<MapC<Int~Slice>> (set.Set<Any>.vals RS)))
+//@   let MR ($at<MapC<Int~Slice>> (set.Set<Any>.vals RS))
+//@   let b2 (select (MapC<Int~Slice>.val M2) h)
+//@   let bR (select (MapC<Int~Slice>.val MR) h)
+//@   let in2 (and (select (MapC<Int~Slice>.dom M2) h) (exists ((j Int)) (! (and (trig j) (<= 0 j) (< j (Slice.len b2)) (r_equiv R v (select (old ($at<Arr<Any>> (Slice.ptr b2))) (+ (Slice.off b2) j)))) :pattern ((trig j)))))
+//@   let inR (and (select (MapC<Int~Slice>.dom MR) h) (exists ((j Int)) (! (and (trig j) (<= 0 j) (< j (Slice.len bR)) (r_equiv R v (select ($at<Arr<Any>> (Slice.ptr bR)) (+ (Slice.off bR) j)))) :pattern ((trig j)))))
+//@   requires (and (not (= R nil.Any)) (= (set.Set<Any>.rules S2) R) (not (= (set.Set<Any>.vals RS) 0)) (MapC<Int~Slice>.ok MR0) (MapC<Int~Slice>.ok M2) (not (= (set.Set<Any>.vals RS) (set.Set<Any>.vals S2))))
+//@   requires (and (set_buckets_ok MR0) (set_buckets_ok M2))
+//@   writes MapC<Int~Slice> (set.Set<Any>.vals RS)
+//@   ensures[C03] dropped: (=> in2 (= MR MR0))
+//@   ensures[C03] kept: (=> (and (not in2) (r_equiv R v v)) inR)
+//
+//@ func (set.Set[interface{}]).Union[interface{}]$1
+//@   tags C03
+//@   let RS (old ($at<set.Set<Any>> rs))
+//@   let R (set.Set<Any>.rules RS)
+//@   let h (r_hash R v)
+//@   let MR0 (old ($at<MapC<Int~Slice>> (set.Set<Any>.vals RS)))
+//@   let MR ($at<MapC<Int~Slice>> (set.Set<Any>.vals RS))
+//@   let bR (select (MapC<Int~Slice>.val MR) h)
+//@   let inR (and (select (MapC<Int~Slice>.dom MR) h) (exists ((j Int)) (! (and (trig j) (<= 0 j) (< j (Slice.len bR)) (r_equiv R v (select ($at<Arr<Any>> (Slice.ptr bR)) (+ (Slice.off bR) j)))) :pattern ((trig j)))))
+//@   requires (and (not (= R nil.Any)) (not (= (set.Set<Any>.vals RS) 0)) (MapC<Int~Slice>.ok MR0) (set_buckets_ok MR0))
+//@   writes MapC<Int~Slice> (set.Set<Any>.vals RS)
+//@   ensures[C03] kept: (=> (r_equiv R v v) inR)
+//
+//@ func (set.Set[interface{}]).Union[interface{}]$2
+//@   tags C03
+//@   let RS (old ($at<set.Set<Any>> rs))
+//@   let R (set.Set<Any>.rules RS)
+//@   let h (r_hash R v)
+//@   let MR0 (old ($at<MapC<Int~Slice>> (set.Set<Any>.vals RS)))
+//@   let MR ($at<MapC<Int~Slice>> (set.Set<Any>.vals RS))
+//@   let bR (select (MapC<Int~Slice>.val MR) h)
+//@   let inR (and (select (MapC<Int~Slice>.dom MR) h) (exists ((j Int)) (! (and (trig j) (<= 0 j) (< j (Slice.len bR)) (r_equiv R v (select ($at<Arr<Any>> (Slice.ptr bR)) (+ (Slice.off bR) j)))) :pattern ((trig j)))))
+//@   requires (and (not (= R nil.Any)) (not (= (set.Set<Any>.vals RS) 0)) (MapC<Int~Slice>.ok MR0) (set_buckets_ok MR0))
+//@   writes MapC<Int~Slice> (set.Set<Any>.vals RS)
+//@   ensures[C03] kept: (=> (r_equiv R v v) inR)
+//
